@@ -146,9 +146,27 @@ func checkC02(c *km.Ctx) {
 							continue
 						}
 						// the standard names kept in a package-level array and copied in by a loop over all of it
+						var arrG *ssa.Global
+						var arrIdx ssa.Value
 						if u, isU := km.Unwrap(x.Key).(*ssa.UnOp); isU && u.Op == token.MUL {
 							if ia, isIA := u.X.(*ssa.IndexAddr); isIA {
 								if g, isG := ia.X.(*ssa.Global); isG {
+									arrG, arrIdx = g, ia.Index
+								}
+							}
+						}
+						// "for _, name := range array": the array value is loaded once and indexed
+						if ix, isIx := km.Unwrap(x.Key).(*ssa.Index); isIx {
+							if u, isU := ix.X.(*ssa.UnOp); isU && u.Op == token.MUL {
+								if g, isG := u.X.(*ssa.Global); isG {
+									arrG, arrIdx = g, ix.Index
+								}
+							}
+						}
+						if arrG != nil {
+							{
+								{
+									g, ia := arrG, struct{ Index ssa.Value }{arrIdx}
 									names, okN := globalArrayStrings(c, g)
 									vs, okv := km.ConstString(x.Value)
 									distinct := map[string]bool{}
@@ -524,8 +542,8 @@ func checkC02(c *km.Ctx) {
 	// borrowed here
 	r.Rule("R-C02-6", "the certificate verifies under the published CA keys: every installed signer's public key is published after every successful load (C09's publication obligations)", 2)
 	r.Remap = func(rule, fn, construct string) (string, bool) {
-		if rule == "R-C09-6" {
-			return "R-C02-6", true
+		if rule == "R-C09-6" && !strings.HasPrefix(construct, "published key") && !strings.Contains(construct, "JSONWebKey") && !strings.Contains(construct, "published key set") {
+			return "R-C02-6", true // the token key set is not about certificates
 		}
 		return "", false
 	}
